@@ -168,6 +168,43 @@ Section Key.
   Qed.
 End Key.
 
+(** C07: encryption is injective in BOTH arguments -- a ciphertext determines its plaintext (by decryption) and its
+    randomiser (by N-th root extraction of the ciphertext reduced mod N). *)
+Section Injective.
+  Variable w : widths.
+  Variables p q : Z.
+  Hypothesis Hw : widths_ok w.
+  Hypothesis Hk : key_ok w p q.
+  Let n := p * q.
+  Let sk := from_pq w p q.
+  Let pk := sk_pk sk.
+
+  Lemma enc_mod_n m r : 0 <= m < n -> encrypt w pk m r mod n = r ^ n mod n.
+  Proof.
+    intros Hm.
+    destruct (key_basic w p q Hw Hk) as (Pp & Pq & Hne & Hp3 & Hq3 & Hp & Hq & Hn & _).
+    fold n in Hn. assert (Hn0 : 0 < n) by (subst n; nia).
+    change (cong n (encrypt w pk m r) (r ^ n)).
+    apply cong_trans with ((1 + m * n) * r ^ n).
+    - apply cong_dvd with (n * n); [lia|nia|exists n; ring|]. apply (enc_form w p q Hw Hk). exact Hm.
+    - apply cong_div; [lia|]. exists (m * r ^ n). ring.
+  Qed.
+
+  Lemma enc_root m r : 0 <= m < n -> 0 <= r < n -> Z.gcd r n = 1 ->
+    extract_n_root w sk (encrypt w pk m r mod n) = r.
+  Proof. intros Hm Hr Hg. rewrite enc_mod_n by assumption. apply (nroot_gcd w p q Hw Hk); assumption. Qed.
+
+  Lemma enc_injective m r m' r' : 0 <= m < n -> 0 <= m' < n -> 0 <= r < n -> 0 <= r' < n ->
+    Z.gcd r n = 1 -> Z.gcd r' n = 1 -> encrypt w pk m r = encrypt w pk m' r' -> m = m' /\ r = r'.
+  Proof.
+    intros Hm Hm' Hr Hr' Hg Hg' E. split.
+    - rewrite <- (S_dec_enc w p q Hw Hk m r) by (try assumption; lia).
+      rewrite <- (S_dec_enc w p q Hw Hk m' r') by (try assumption; lia).
+      fold sk pk. rewrite E. reflexivity.
+    - rewrite <- (enc_root m r) by assumption. rewrite <- (enc_root m' r') by assumption. rewrite E. reflexivity.
+  Qed.
+End Injective.
+
 Section Statements.
   Variable w : widths.
   Variables p q : Z.
